@@ -73,6 +73,23 @@ func opConc(req *sb.Req) *sb.Resp {
 		b.env.Visitors = append(b.env.Visitors, &yieldVisitor{every: req.Yield + 1})
 	}
 	resp.Subs = make([]sb.SubResp, len(req.Calls))
+	if req.Extra["mode"] == "serial" {
+		// the serial schedule: the same calls one after the other on the one
+		// shared environment (state kept by the environment or the library
+		// between calls must not change any result)
+		for i, c := range req.Calls {
+			resp.Subs[i] = runCall(b.env, c)
+		}
+		for _, c := range req.Calls {
+			b2, err := buildEnv(req.Env, req.Loader, req.Templates, 0, 0)
+			if err != nil {
+				return &sb.Resp{Status: "infra", Err: err.Error()}
+			}
+			resp.Subs2 = append(resp.Subs2, runCall(b2.env, c))
+			b2.cleanup()
+		}
+		return resp
+	}
 	var wg sync.WaitGroup
 	start := make(chan struct{})
 	for i, c := range req.Calls {
